@@ -1,6 +1,6 @@
 PROP = {
     "level": "proof",
-    "legs": ["c12-hist", "c12-index"],
+    "legs": ["c12-hist", "c12-index", "c12-errexit"],
     "timeout_quick": 600,
     "timeout_thorough": 7200,
     "trusted_base": TB_COMMON + [
